@@ -292,6 +292,13 @@ class SMCSampler(MCMCSampler):
                 self.adaptive_min_step = True
         else:
             self.adaptive_min_step = False
+        if resumed and self.adaptive_min_step:
+            # The adaptive minimum step evolves during the run; continue from
+            # the value stored in the checkpoint
+            restored_min_step = getattr(self, "_restored_min_step", None)
+            if restored_min_step is not None:
+                min_step = restored_min_step
+        self._min_step = min_step
 
         iterations = iterations or 0
         if checkpoint_callback is None and checkpoint_every is not None:
@@ -331,6 +338,7 @@ class SMCSampler(MCMCSampler):
                     min_step,
                     beta_tolerance=beta_tolerance,
                 )
+                self._min_step = min_step
                 self.history.eff_target.append(
                     self.current_target_efficiency(beta)
                 )
@@ -435,6 +443,7 @@ class SMCSampler(MCMCSampler):
             "history": history_copy,
             "rng_state": rng_state,
             "sampler_kwargs": getattr(self, "sampler_kwargs", None),
+            "min_step": getattr(self, "_min_step", None),
         }
 
     def restore_from_checkpoint(
@@ -449,6 +458,7 @@ class SMCSampler(MCMCSampler):
             beta = state.get("beta", 0.0)
         iteration = state.get("iteration", 0)
         self.history = state.get("history", SMCHistory())
+        self._restored_min_step = state.get("min_step")
         rng_state = state.get("rng_state")
         if rng_state is not None and hasattr(self.rng, "bit_generator"):
             self.rng.bit_generator.state = rng_state
